@@ -32,6 +32,9 @@ partial def loop (h : IO.FS.Stream) (out : IO.FS.Stream) (st : St) : IO Unit := 
     let set := words.foldl (fun (s : Std.HashSet String) w => s.insert (String.ofList w)) {}
     out.putStrLn s!"ok {words.length}"
     loop h out { st with env := { st.env with reserved := set, reservedList := words } }
+  | ["pl", key, hash] =>
+    out.putStrLn "ok"
+    loop h out { st with env := { st.env with passlib := st.env.passlib.insert (String.ofList (parseCps key)) (parseCps hash) } }
   | _ =>
   let (st', o) := stepLine st line
   out.putStrLn o
